@@ -70,7 +70,7 @@ func (r *Run) condShapesRec(fd *FuncDecl, out map[string]int, seen map[*FuncDecl
 					add(x.Cond)
 				}
 			case *ast.RangeStmt:
-				out["loop range "+u.shapeOf(x.X)]++
+				out["loop range "+u.rangeOperandShape(x, false)]++
 			case *ast.CaseClause:
 				for _, e := range x.List {
 					if t := u.Info.TypeOf(e); t != nil && isBoolType(t) {
